@@ -543,6 +543,38 @@ class Builder:
             S("assign", base=("loc", "x", 0), path=[], e=E("bin", U256, op="Add", a=E("pop", U256, base=bsto(DYN), path=[]), b=self.g()), decl=U256),
             S("return", e=E("bin", U256, op="Add", a=E("var", U256, name="x", id=0), b=E("len", U256, a=sto(DYN))))])
 
+    # append whose ARGUMENT changes the length of the same array (the argument is evaluated before append reads the length)
+    def _dyn3(self):
+        return S("assign", base=bsto(DYN), path=[], e=E("list", DARR, elems=[c(1), c(2), c(3)]), decl=None)
+
+    def pos_append_arg_pops(self):
+        self.add_test("append_arg_pops", DARR, [self._dyn3(),
+                      S("append", base=bsto(DYN), path=[], cap=6, e=E("pop", U256, base=bsto(DYN), path=[])),
+                      S("return", e=sto(DYN))])
+
+    def pos_append_arg_pops_expr(self):
+        self.add_test("append_arg_pops_expr", DARR, [self._dyn3(),
+                      S("append", base=bsto(DYN), path=[], cap=6,
+                        e=E("bin", U256, op="Add", a=E("pop", U256, base=bsto(DYN), path=[]), b=E("pop", U256, base=bsto(DYN), path=[]))),
+                      S("return", e=sto(DYN))])
+
+    def pos_append_arg_call_appends(self):
+        self.add_test("append_arg_call_appends", DARR, [self._dyn3(),
+                      S("append", base=bsto(DYN), path=[], cap=6, e=E("bin", U256, op="Add", a=self.call("app"), b=c(4))),
+                      S("return", e=sto(DYN))])
+
+    def pos_append_arg_call_pops(self):
+        self.add_test("append_arg_call_pops", DARR, [self._dyn3(),
+                      S("append", base=bsto(DYN), path=[], cap=6, e=E("bin", U256, op="Add", a=self.call("popd"), b=self.call("popd"))),
+                      S("return", e=sto(DYN))])
+
+    def pos_append_arg_pops_local(self):
+        z = ("loc", "z", 0)
+        self.add_test("append_arg_pops_local", DARR, [
+            S("assign", base=z, path=[], e=E("list", DARR, elems=[c(1), c(2), c(3)]), decl=DARR),
+            S("append", base=z, path=[], cap=6, e=E("pop", U256, base=z, path=[])),
+            S("return", e=E("var", DARR, name="z", id=0))])
+
     def pos_pop_both(self):
         self.add_test("pop_pop", U256, [
             S("assign", base=bsto(DYN), path=[], e=E("list", DARR, elems=[c(1), c(2), c(3)]), decl=None),
@@ -603,7 +635,8 @@ class Builder:
                  "append_pop", "pop_both", "assert", "if_cond", "by_value_array", "by_value_storage_array",
                  "by_value_scalar", "copy_then_effect", "arg_copy_vs_effect", "callarg_list_of_calls", "callarg_list_mixed",
                  "callarg_list_then_word", "callarg_list_then_call", "callarg_struct_of_calls", "callarg_dyn_of_calls",
-                 "callarg_nested_with_params", "callarg_call_of_call"]
+                 "callarg_nested_with_params", "callarg_call_of_call", "append_arg_pops", "append_arg_pops_expr",
+                 "append_arg_call_appends", "append_arg_call_pops", "append_arg_pops_local"]
 
 
 RVE_POSITIONS = [f"rve_{cx}_{rd}" for cx in Builder.RVE_CONTEXTS for rd in Builder.RVE_READS]
